@@ -16,12 +16,32 @@ SPEC_GROUP = 7
 SPEC_MAXLEN = 10  # ceil(64 / 7)
 
 
+def varint_writer(mod):
+    """the function that holds the varint emit loop: dump_varint, or - when dump_varint only hands its value to another
+    function of the module and writes the result - that function (the two have swapped roles before)"""
+    dv = mod.func("dump_varint")
+    if any(isinstance(n, (ast.While, ast.For)) for n in ast.walk(dv)):
+        return dv
+    v = dv.args.args[0].arg
+    cands = []
+    for c in ast.walk(dv):
+        if isinstance(c, ast.Call) and isinstance(c.func, ast.Name) and mod.has(c.func.id) and len(c.args) == 1 and isinstance(c.args[0], ast.Name) and c.args[0].id == v:
+            h = mod.func(c.func.id)
+            if any(isinstance(n, (ast.While, ast.For)) for n in ast.walk(h)):
+                cands.append(h)
+    return cands[0] if len(cands) == 1 else dv
+
+
 def _threshold(paths: List[Path], param: str) -> Optional[Tuple[Any, str]]:
     """constant K of the guard `param < K` whose true branch raises; exception name"""
     for p in paths:
         if p.outcome != "raise":
             continue
         trues = [k for k, v in p.valuation.items() if v]
+        if len(trues) > 1 and len(trues) == len(p.valuation) and all(k[0] == "op" and k[1] == "<" and k[2] == N(param) and k[3][0] == "c" and isinstance(k[3][1], int) for k in trues):
+            # nested guards `param < a` and `param < b`: rejects below min(a, b)
+            exc = dotted(p.value[1]) if p.value and p.value[0] == "call" else dotted(p.value) if p.value else ""
+            return min(k[3][1] for k in trues), exc
         if len(trues) == 1 and len(p.valuation) == 1:
             k = trues[0]
             if k[0] == "op" and k[1] == "<" and k[2] == N(param) and k[3][0] == "c":
@@ -39,7 +59,7 @@ def varint_facts(ctx) -> Dict[str, Any]:
     """constants of dump_varint / size_varint / load_varint extracted from their summaries"""
     mod = ctx.repo.mod(M_INIT)
     facts: Dict[str, Any] = {}
-    dv = mod.func("dump_varint")
+    dv = varint_writer(mod)
     sv = mod.func("size_varint")
     lv = mod.func("load_varint")
     ctx.analysed("dump_varint", "size_varint", "load_varint", "encode_varint", "decode_varint")
@@ -94,16 +114,24 @@ def varint_facts(ctx) -> Dict[str, Any]:
     facts["size_neg"] = sorted({p.value[1] for p in spaths if p.valuation.get(neg_atom_s) is True and p.outcome == "return" and p.value and p.value[0] == "c"})
     facts["size_zero"] = sorted({p.value[1] for p in spaths if p.valuation.get(zero_atom_s) is True and p.outcome == "return" and p.value and p.value[0] == "c"})
     pos = [p for p in spaths if p.outcome == "return" and p.value and p.value[0] != "c"]
-    facts["size_pos_terms"] = [show(p.value) for p in pos]
-    divs = set()
+    # `<size of the positive branch> or k`: the bit length is 0 exactly for the value 0, which then takes k bytes
+    pos_values = []
     for p in pos:
-        for t in walk(p.value):
+        v = p.value
+        if v[0] == "op" and v[1] == "or" and len(v) == 4 and v[3][0] == "c" and ("a", N(sparam), "bit_length") in list(walk(v[2])):
+            facts["size_zero"] = sorted(set(facts["size_zero"]) | {v[3][1]})
+            v = v[2]
+        pos_values.append(v)
+    facts["size_pos_terms"] = [show(v) for v in pos_values]
+    divs = set()
+    for v in pos_values:
+        for t in walk(v):
             if t[0] == "op" and t[1] in ("/", "//") and t[3][0] == "c":
                 divs.add(t[3][1])
     facts["size_divisors"] = sorted(divs)
     facts["size_pos_shape"] = None
     if len(pos) == 1:
-        v = pos[0].value
+        v = pos_values[0]
         bl = ("call", ("a", N(sparam), "bit_length"), (), ())
         g = facts["size_divisors"][0] if len(facts["size_divisors"]) == 1 else None
         if g is not None:
@@ -381,7 +409,7 @@ def rule_N1(ctx) -> None:
 def rule_N1b(ctx, rule: str = "N1") -> None:
     """the emit loop of dump_varint writes a continuation byte iff more than `group` bits remain (canonical minimal encoding)"""
     mod = ctx.repo.mod(M_INIT)
-    dv = mod.func("dump_varint")
+    dv = varint_writer(mod)
     loc = mod.loc(dv)
     f = varint_facts(ctx)
     group = f["dump_shifts"][0] if len(f["dump_shifts"]) == 1 else None
